@@ -352,6 +352,7 @@ struct World
     uint64_t accept_post_hash = 0;  // C14: a real-path fault may be reported after the commit point
     bool have_accept_post = false;
     void after_step(const StepEffect& e);
+    void check_getter_vs_snapshot(const TrackObs& t);
     void exec_track_op(const Step& s);
     void exec_crate_op(const Step& s);
     void exec_member_op(const Step& s);
